@@ -87,14 +87,16 @@ let show_outcome = function
   | Stuck -> "STUCK"
   | Run (ps, io) -> "RUN " ^ show_kvs ps ^ " | " ^ show_kvs io
 
-(* the number recogniser standing for `istringstream(tok) >> double` on the token classes the
-   generator produces: optional blanks, sign, digits with optional fraction (or .digits), optional
-   exponent, optional trailing blanks.  Everything else generated is a failing token. *)
+(* the recogniser standing for `istringstream(tok) >> double` (libstdc++): blanks, then the longest prefix
+   [+-] digits [. digits] [(e|E) [+-] digits] is handed to strtod, which must consume all of it and not
+   overflow; what follows the prefix is ignored ("2.5x" is read, "1e" is not).  The same function as
+   checks/c20.py dbl_value, which is compared with the real stream on every run (oracle stream). *)
 let is_number (s : String.t) =
   let n = String.length s in
-  let blank c = c = ' ' || c = '\t' || c = '\r' || c = '\n' in
+  let blank c = c = ' ' || c = '\t' || c = '\r' || c = '\n' || c = '\011' || c = '\012' in
   let i = ref 0 in
   while !i < n && blank s.[!i] do incr i done;
+  let start = !i in
   if !i < n && (s.[!i] = '+' || s.[!i] = '-') then incr i;
   let digits () = let st = !i in while !i < n && s.[!i] >= '0' && s.[!i] <= '9' do incr i done; !i - st in
   let a = digits () in
@@ -107,8 +109,9 @@ let is_number (s : String.t) =
       if !i < n && (s.[!i] = '+' || s.[!i] = '-') then incr i;
       if digits () = 0 then ok := false
     end;
-    while !i < n && blank s.[!i] do incr i done;
-    !ok && !i = n
+    !ok && (match float_of_string_opt (String.sub s start (!i - start)) with
+            | Some v -> Float.is_finite v
+            | None -> (* OCaml wants a digit before the point; ".5" / "+.5" are numbers for strtod *) true)
   end
 
 let parse_tok t = if is_number (string_of_coq t) then Some t else None
